@@ -8,10 +8,19 @@
 (*   doms   <<cell, gdim, coordinate degree, ufl_id>>          (Mesh)      *)
 (*   elems  <<family, degree, shape, pullback, sobolev, symmetric, dom>>   *)
 (*          = a FunctionSpace(doms[dom], element)                          *)
-(*   coefs  <<count, elem>>            Coefficient(space, count)           *)
-(*   csts   <<count, shape, dom>>      Constant(mesh, shape, count)        *)
-(*   itgs   [itype, sid, md, dom, g]   g * Measure(itype, domain = dom,    *)
-(*                                     subdomain_id = sid, metadata = md)  *)
+(*   coefs  <<count, elem, cls>>       cls(space, count): cls 0 is         *)
+(*                                     ufl.Coefficient, 1 and 2 are user   *)
+(*                                     subclasses of it (the "Function" of *)
+(*                                     a problem solving environment)      *)
+(*   csts   <<count, shape, dom, cls>> cls(mesh, shape, count): cls 0 is   *)
+(*                                     ufl.Constant, 1 a user subclass     *)
+(*   itgs   [itype, sid, md, dom, g, xm]                                   *)
+(*                                     g * Measure(itype, domain = dom,    *)
+(*                                     subdomain_id = sid, metadata = md,  *)
+(*                                     intersect_measures = xm)            *)
+(*          xm = sequence of <<itype, dom>>: Measure(itype, domain = dom), *)
+(*          the integral types on the other meshes of a multi-domain       *)
+(*          integral (Integral.extra_domain_integral_type_map)             *)
 (* Integrands g and metadata md are trees of nodes [op, a, s]: operator    *)
 (* name, integer attributes, ordered children.  Alphabet of g:             *)
 (*   int <<v>>  flt <<id>>          literals (floats: ids of distinct      *)
@@ -41,8 +50,13 @@
 (*   - names of free indices: only the pattern (first-occurrence order)    *)
 (*     and, where one product sums over several names, the order of their  *)
 (*     counts (it fixes the nesting of the IndexSums ufl builds);          *)
-(*   - the order of integrals with different (domain, type, subdomain id); *)
-(*     integrals of one key keep their order (as coded: not canonicalised);*)
+(*   - the Python class of a coefficient / constant (all subclasses of    *)
+(*     Coefficient share one counter and one numbering: _counted_class);  *)
+(*   - the order of integrals with different (domain, type, intersect      *)
+(*     measures, subdomain id); integrals of one key keep their order (as  *)
+(*     coded: not canonicalised);                                          *)
+(*   - the order in which the intersect measures of a measure are given    *)
+(*     (the map mesh -> integral type is what the compiler gets);          *)
 (*   - a tuple subdomain id is the sum of the integrals over its members;  *)
 (*   - operand order of sum / prod when the operands differ by more than   *)
 (*     free-index names or labels (what sorted_expr can decide; operands   *)
@@ -71,8 +85,11 @@ N(op, a, s) == [op |-> op, a |-> a, s |-> s]
 \* field positions in the tables
 D_CELL == 1  D_GDIM == 2  D_CDEG == 3  D_UID == 4
 E_FAM == 1  E_DEG == 2  E_SHAPE == 3  E_MAP == 4  E_SOB == 5  E_SYM == 6  E_DOM == 7
-C_K == 1  C_E == 2
-K_K == 1  K_SH == 2  K_D == 3
+C_K == 1  C_E == 2  C_CLS == 3
+K_K == 1  K_SH == 2  K_D == 3  K_CLS == 4
+X_IT == 1  X_D == 2
+CoefClasses == 3           \* ufl.Coefficient and two user subclasses
+CstClasses  == 2           \* ufl.Constant and one user subclass
 
 UnaryMath == {"sin", "cos", "exp", "abs"}
 Binary    == {"sum", "prod", "div", "pow"}
@@ -166,7 +183,9 @@ UsedElems(p)  == {p.coefs[c][C_E] : c \in UsedCoefs(p)}
                  \cup UNION {{IF n.op = "arg" THEN n.a[3] ELSE n.a[1]
                               : n \in {m \in Nodes(p.itgs[j].g) : m.op \in {"arg", "ext", "itp"}}}
                              : j \in DOMAIN p.itgs}
+XmDoms(I)     == {I.xm[i][X_D] : i \in DOMAIN I.xm}
 UsedDoms(p)   == {p.itgs[j].dom : j \in DOMAIN p.itgs}
+                 \cup UNION {XmDoms(p.itgs[j]) : j \in DOMAIN p.itgs}
                  \cup {p.elems[e][E_DOM] : e \in UsedElems(p)}
                  \cup {p.csts[c][K_D] : c \in UsedCsts(p)}
                  \cup UNION {{n.a[2] : n \in {m \in Nodes(p.itgs[j].g) : m.op = "geo"}} : j \in DOMAIN p.itgs}
@@ -185,6 +204,8 @@ IndexOK(g) == LET ns == NegSeq(g) IN
 
 WellFormed(p) ==
   /\ \A i \in DOMAIN p.elems : ElemOK(p, p.elems[i])
+  /\ \A c \in DOMAIN p.coefs : p.coefs[c][C_CLS] \in 0..(CoefClasses - 1)
+  /\ \A c \in DOMAIN p.csts : p.csts[c][K_CLS] \in 0..(CstClasses - 1)
   /\ \A j \in DOMAIN p.itgs :
        LET I == p.itgs[j] IN
        /\ Rank(p, I.g) = 0
@@ -192,6 +213,9 @@ WellFormed(p) ==
        /\ IndexOK(I.g)
        /\ HasRes(I.g) <=> I.itype = 3
        /\ I.dom \in DOMAIN p.doms
+       \* intersect measures: one per other mesh, never the integration domain itself
+       /\ \A i \in DOMAIN I.xm : I.xm[i][X_D] \in DOMAIN p.doms /\ I.xm[i][X_D] # I.dom /\ I.xm[i][X_IT] \in 1..4
+       /\ Cardinality(XmDoms(I)) = Len(I.xm)
        /\ I.sid # <<>> /\ (Len(I.sid) > 1 => \A i \in DOMAIN I.sid : I.sid[i] >= 1)
        /\ I.md.op = "dict"
        /\ \A n \in Nodes(I.md) : n.op = "dict" => Cardinality(Rng(n.a)) = Len(n.a) /\ Len(n.a) = Len(n.s)
@@ -218,7 +242,8 @@ CountNum(tbl, form, used, c) ==
   ELSE Cardinality(form) + RankIn({tbl[x][1] : x \in used \ form}, tbl[c][1])
 
 \* Form.domain_numbering: the integration domains sorted by (gdim, tdim, ufl_id) come first, then
-\* the other domains of the form sorted the same way (tdim is 2 for both cells of the model)
+\* the other domains of the form (those of the integrands and of the intersect measures) sorted
+\* the same way (tdim is 2 for both cells of the model)
 IntDoms(p) == {p.itgs[j].dom : j \in DOMAIN p.itgs}
 DomLess(p, x, y) == \/ p.doms[x][D_GDIM] < p.doms[y][D_GDIM]
                     \/ p.doms[x][D_GDIM] = p.doms[y][D_GDIM] /\ p.doms[x][D_UID] < p.doms[y][D_UID]
@@ -227,6 +252,15 @@ DomNum(p, d) == IF d \in IntDoms(p) THEN Cardinality({x \in IntDoms(p) : DomLess
 DomVec(p, d) == LET D == p.doms[d] IN <<D[D_CELL], D[D_GDIM], D[D_CDEG], DomNum(p, d)>>
 ElemVec(p, e) == LET E == p.elems[e] IN
   <<E[E_FAM], E[E_DEG], E[E_SHAPE], E[E_MAP], E[E_SOB], E[E_SYM]>> \o DomVec(p, E[E_DOM])
+\* intersect measures: Measure sorts them by the sort key of their mesh (gdim, tdim, ufl_id); the
+\* map mesh -> integral type is what is left of them in the Integral
+XmSorted(p, I) == SortSeq(I.xm, LAMBDA x, y : DomLess(p, x[X_D], y[X_D]))
+XmVec(p, I) == LET s == XmSorted(p, I) IN [i \in DOMAIN s |-> <<s[i][X_IT]>> \o DomVec(p, s[i][X_D])]
+\* ... and _sorted_integrals compares the tuple of (mesh sort key, integral type name) pairs (the
+\* names cell < exterior_facet < interior_facet < vertex sort like the ids 1..4; a tuple that is a
+\* prefix of another one comes first: terminator 0, smaller than every gdim)
+XmKey(p, I) == LET s == XmSorted(p, I) IN
+               Concat([i \in DOMAIN s |-> <<p.doms[s[i][X_D]][D_GDIM], p.doms[s[i][X_D]][D_UID], s[i][X_IT]>>]) \o <<0>>
 
 \* table references replaced by what they denote; counts by their rank
 InlineNode(p, t) ==
@@ -305,7 +339,7 @@ MapT(t, mode, ctx) ==
   IF t.s = <<>> THEN NodeFn(mode, ctx, t)
   ELSE NodeFn(mode, ctx, [t EXCEPT !.s = [i \in DOMAIN t.s |-> MapT(t.s[i], mode, ctx)]])
 
-\* integrals: tuple ids split, then a stable sort by (domain, type, id)
+\* integrals: tuple ids split, then a stable sort by (domain, type, intersect measures, id)
 SplitSids(itgs) ==
   Concat([j \in DOMAIN itgs |-> [i \in DOMAIN itgs[j].sid |-> [itgs[j] EXCEPT !.sid = <<itgs[j].sid[i]>>]]])
 RECURSIVE SeqLess(_, _)
@@ -315,7 +349,7 @@ SeqLess(a, b) == IF a = <<>> THEN b # <<>>
                  ELSE SeqLess(Tail(a), Tail(b))
 \* "everywhere" (0) is a str, explicit ids are ints: keyfunc sorts by (type name, value)
 SidKey(sid) == IF sid[1] = 0 THEN <<1, 0>> ELSE <<0, sid[1]>>
-IKey(p, I) == <<p.doms[I.dom][D_GDIM], p.doms[I.dom][D_UID], I.itype>> \o SidKey(I.sid)
+IKey(p, I) == <<p.doms[I.dom][D_GDIM], p.doms[I.dom][D_UID], I.itype>> \o XmKey(p, I) \o SidKey(I.sid)
 RECURSIVE StableSort(_, _)   \* insertion sort of integrals by IKey, stable
 StableSort(p, s) ==
   IF s = <<>> THEN <<>>
@@ -330,6 +364,7 @@ Inline(p) ==
      [itype |-> sorted[j].itype, sid |-> sorted[j].sid,
       md |-> MapT(sorted[j].md, "md", <<>>),
       dom |-> DomVec(p, sorted[j].dom),
+      xm |-> XmVec(p, sorted[j]),
       g |-> MapT(MapT(MapT(sorted[j].g, "inline", p), "sumorder", <<>>), "commsort", <<>>)]]
 
 \* free index names -> first-occurrence numbers over the whole (sorted) form
@@ -443,6 +478,8 @@ TreeCands(p) ==
          : j \in DOMAIN p.itgs}
 
 Sids == {<<0>>, <<1>>, <<2>>, <<1, 2>>, <<2, 2>>}
+\* meshes that an integral does not refer to yet (neither integration domain nor intersect measure)
+FreeDoms(p, I) == DOMAIN p.doms \ ({I.dom} \cup XmDoms(I))
 IntegralCands(p) ==
   UNION {
     {C(<<"integral-type">>, SetItg(p, j, "itype", v)) : v \in {1, 2, 4} \ {p.itgs[j].itype}}
@@ -451,6 +488,16 @@ IntegralCands(p) ==
     \cup {C(<<"integral-domain">>, SetItg(p, j, "dom", d)) : d \in {x \in DOMAIN p.doms : p.doms[x] # p.doms[p.itgs[j].dom]}}
     \cup (IF Len(p.itgs) >= 2 THEN {C(<<"integral-dropped">>, [p EXCEPT !.itgs = DropAt(@, j)])} ELSE {})
     \cup {C(<<"integral-duplicated">>, [p EXCEPT !.itgs = Append(@, @[j])])}
+    \* intersect measures: the type on one other mesh, WHICH other mesh, one measure less / more
+    \cup UNION {
+         {C(<<"xmeasure-type">>, SetItg(p, j, "xm", [p.itgs[j].xm EXCEPT ![i] = <<v, @[X_D]>>]))
+          : v \in {1, 2, 3} \ {p.itgs[j].xm[i][X_IT]}}
+         \cup {C(<<"xmeasure-domain">>, SetItg(p, j, "xm", [p.itgs[j].xm EXCEPT ![i] = <<@[X_IT], d>>]))
+               : d \in FreeDoms(p, p.itgs[j])}
+         \cup {C(<<"xmeasure-dropped">>, SetItg(p, j, "xm", DropAt(p.itgs[j].xm, i)))}
+         : i \in DOMAIN p.itgs[j].xm}
+    \cup {C(<<"xmeasure-added">>, SetItg(p, j, "xm", Append(p.itgs[j].xm, <<p.itgs[j].itype, d>>)))
+          : d \in {x \in FreeDoms(p, p.itgs[j]) : \A y \in FreeDoms(p, p.itgs[j]) : x <= y}}
     : j \in DOMAIN p.itgs}
 
 TableCands(p) ==
@@ -481,11 +528,14 @@ Cands(p) == {c \in TreeCands(p) \cup IntegralCands(p) \cup TableCands(p) : WellF
 
 \* kinds whose effect on Canon depends on the sharing pattern / relative order of the counts
 \* (f*g -> f*h with a fresh h of the same space is the same form): Canon decides.
-OrderKinds == {"coef-identity", "const-identity"}
+\* Likewise the other mesh of an intersect measure: replacing it by an equal mesh that occurs
+\* nowhere else in the form is a renumbering of the meshes.
+OrderKinds == {"coef-identity", "const-identity", "xmeasure-domain"}
 
 -----------------------------------------------------------------------------
 (* renamings: only ignorable numbering changes *)
-Keys(p, I) == {<<p.doms[I.dom][D_UID], I.itype, I.sid[i]>> : i \in DOMAIN I.sid}
+Keys(p, I) == {<<p.doms[I.dom][D_UID], I.itype, I.sid[i]>> \o XmKey(p, I) : i \in DOMAIN I.sid}
+UsesCls(p) == \E c \in UsedCoefs(p) : p.coefs[c][C_CLS] # 0
 
 Renamings(p) ==
   (IF \E j \in DOMAIN p.itgs : HasFree(p.itgs[j].g)
@@ -496,6 +546,14 @@ Renamings(p) ==
    THEN {C(<<"rename-coefficient-counts">>, [p EXCEPT !.coefs = [c \in DOMAIN @ |-> [@[c] EXCEPT ![C_K] = 2 * @ + 1]]])} ELSE {})
   \cup (IF UsedCsts(p) # {}
    THEN {C(<<"rename-constant-counts">>, [p EXCEPT !.csts = [c \in DOMAIN @ |-> [@[c] EXCEPT ![K_K] = 3 * @]]])} ELSE {})
+  \* the Python classes of the coefficients / constants: all of them plain ufl.Coefficient; another
+  \* assignment of classes (coefficient c: class + c modulo the number of classes)
+  \cup (IF UsesCls(p)
+   THEN {C(<<"rename-coefficient-classes-uniform">>, [p EXCEPT !.coefs = [c \in DOMAIN @ |-> [@[c] EXCEPT ![C_CLS] = 0]]])} ELSE {})
+  \cup (IF UsedCoefs(p) # {}
+   THEN {C(<<"rename-coefficient-classes-shift">>, [p EXCEPT !.coefs = [c \in DOMAIN @ |-> [@[c] EXCEPT ![C_CLS] = (@ + c) % CoefClasses]]])} ELSE {})
+  \cup (IF UsedCsts(p) # {}
+   THEN {C(<<"rename-constant-classes">>, [p EXCEPT !.csts = [c \in DOMAIN @ |-> [@[c] EXCEPT ![K_CLS] = (@ + c) % CstClasses]]])} ELSE {})
   \cup {C(<<"rename-mesh-ids">>, [p EXCEPT !.doms = [d \in DOMAIN @ |-> [@[d] EXCEPT ![D_UID] = 2 * @ + 3]]])}
   \cup UNION {{C(<<"swap-commutative-operands">>,
                  SetItg(p, j, "g", Put(p.itgs[j].g, path, [At(p.itgs[j].g, path) EXCEPT !.s = <<@[2], @[1]>>])))
@@ -510,6 +568,8 @@ Renamings(p) ==
               : j \in DOMAIN p.itgs}
   \cup {C(<<"subdomain-tuple-order">>, SetItg(p, j, "sid", Reverse(p.itgs[j].sid)))
         : j \in {x \in DOMAIN p.itgs : Len(p.itgs[x].sid) = 2 /\ p.itgs[x].sid[1] # p.itgs[x].sid[2]}}
+  \cup {C(<<"intersect-measure-order">>, SetItg(p, j, "xm", Reverse(p.itgs[j].xm)))
+        : j \in {x \in DOMAIN p.itgs : Len(p.itgs[x].xm) >= 2}}
 
 -----------------------------------------------------------------------------
 (* bounded generator *)
@@ -520,8 +580,12 @@ Elems0 == << <<1, 1, 0, 1, 1, 0, 1>>,     \* 1  P1 scalar on mesh 1
              <<1, 1, 2, 1, 1, 0, 1>>,     \* 4  P1 tensor
              <<1, 1, 0, 1, 1, 0, 2>>,     \* 5  P1 scalar on mesh 2
              <<1, 2, 1, 1, 1, 0, 1>> >>   \* 6  P2 vector
-Coefs0 == << <<3, 1>>, <<5, 1>>, <<6, 2>>, <<8, 3>>, <<9, 3>>, <<11, 4>>, <<12, 4>>, <<14, 5>> >>
-Csts0  == << <<2, 0, 1>>, <<4, 0, 1>>, <<6, 1, 1>> >>
+\* classes: coefficients 1, 2 (one space) plain / subclass; 4, 5 (one space) two different
+\* subclasses; 6, 7 (one space) both plain
+Coefs0 == << <<3, 1, 0>>, <<5, 1, 1>>, <<6, 2, 0>>, <<8, 3, 1>>, <<9, 3, 2>>, <<11, 4, 0>>, <<12, 4, 0>>, <<14, 5, 0>> >>
+Csts0  == << <<2, 0, 1, 0>>, <<4, 0, 1, 1>>, <<6, 1, 1, 0>> >>
+\* a third mesh, equal to the other two up to its id (multi-domain universe)
+Doms3  == Doms0 \o << <<1, 2, 1, 9>> >>
 
 I_(v) == N("int", <<v>>, <<>>)
 R_(v) == N("flt", <<v>>, <<>>)
@@ -534,7 +598,8 @@ U_(op, t) == N(op, <<>>, <<t>>)
 B_(op, x, y) == N(op, <<>>, <<x, y>>)
 Emp == N("dict", <<>>, <<>>)
 MI(v) == N("mint", <<v>>, <<>>)
-Itg(it, sid, md, d, g) == [itype |-> it, sid |-> sid, md |-> md, dom |-> d, g |-> g]
+Itg(it, sid, md, d, g) == [itype |-> it, sid |-> sid, md |-> md, dom |-> d, g |-> g, xm |-> <<>>]
+ItgX(it, sid, md, d, g, xm) == [itype |-> it, sid |-> sid, md |-> md, dom |-> d, g |-> g, xm |-> xm]
 Prog(itgs) == [doms |-> Doms0, elems |-> Elems0, coefs |-> Coefs0, csts |-> Csts0, itgs |-> itgs]
 One(g) == Prog(<<Itg(1, <<0>>, Emp, 1, g)>>)
 
@@ -663,6 +728,26 @@ ElemProgs ==
                                         \cup (IF Lvl = 1 THEN {} ELSE {B_("prod", G_(1, 1), F_(8)), B_("inner", F_(6), F_(7))})}
      \cup {[One(B_("inner", F_(6), F_(7))) EXCEPT !.elems = [@ EXCEPT ![4] = <<1, d, 2, 1, 1, s, 1>>]] : d \in {1, 2}, s \in {0, 1}}
 
+\* multi-domain integrals (measures with intersect measures) over three meshes that differ only in
+\* their ids: alone (the other meshes are numbered by what the measure refers to) and in forms in
+\* which the other meshes occur anyway, as integration domains or in the integrand (so that WHICH
+\* mesh a measure is intersected with is not a renumbering)
+XmProgs ==
+  LET P3(itgs) == [Prog(itgs) EXCEPT !.doms = Doms3]
+      vol(d) == G_(1, d)
+      A  == ItgX(2, <<1>>, Emp, 1, F_(1), << <<3, 2>> >>)                     \* f ds(1; m1) & dS(m2)
+      A3 == ItgX(2, <<1>>, Emp, 1, F_(2), << <<3, 3>> >>)                     \* g ds(1; m1) & dS(m3)
+      A0 == Itg(2, <<1>>, Emp, 1, F_(2))                                       \* g ds(1; m1)
+      B  == ItgX(2, <<1>>, Emp, 1, F_(1), << <<3, 2>>, <<2, 3>> >>)           \* & dS(m2) & ds(m3)
+      Cc == ItgX(1, <<0>>, Emp, 1, B_("prod", F_(2), A_(0, 1)), << <<1, 2>> >>) \* dx(m1) & dx(m2)
+      Gg == ItgX(2, <<0>>, Emp, 1, B_("prod", vol(2), vol(3)), << <<3, 2>> >>) \* both other meshes in the integrand
+      R(d) == Itg(1, <<0>>, Emp, d, vol(d))
+  IN {P3(<<A>>), P3(<<Cc>>), P3(<<Gg>>), P3(<<A, R(2), R(3)>>), P3(<<A, A3>>), P3(<<A0, A>>)}
+     \cup (IF Lvl = 1 THEN {} ELSE
+          {P3(<<B>>), P3(<<A, R(2)>>), P3(<<B, R(3)>>), P3(<<Cc, R(3), R(2)>>), P3(<<A3, A, A0>>),
+           P3(<<ItgX(3, <<0>>, Emp, 2, B_("prod", N("res", <<1>>, <<F_(8)>>), N("res", <<2>>, <<F_(8)>>)), << <<2, 1>> >>), R(3)>>),
+           P3(<<ItgX(1, <<1, 2>>, N("dict", <<1>>, <<MI(2)>>), 1, F_(1), << <<1, 3>>, <<1, 2>> >>)>>)})
+
 SeedSeq == JsonDeserialize("seeds.json")
 
 Programs ==
@@ -674,9 +759,10 @@ Programs ==
     [] Univ = "md"      -> MdProgs
     [] Univ = "measure" -> MeasureProgs
     [] Univ = "elem"    -> ElemProgs
+    [] Univ = "xm"      -> XmProgs
     [] Univ = "seeds"   -> Rng(SeedSeq)
     [] Univ = "all"     -> {One(g) : g \in AlgTerms \cup IndexTerms \cup CondTerms \cup DerivTerms \cup BfoTerms}
-                           \cup MdProgs \cup MeasureProgs \cup ElemProgs
+                           \cup MdProgs \cup MeasureProgs \cup ElemProgs \cup XmProgs
 
 -----------------------------------------------------------------------------
 VARIABLES b,      \* number of the base program
@@ -729,7 +815,7 @@ VerdictStable == lvl = 3 => renok
 RECURSIVE EncT(_)
 EncT(t) == <<t.op, t.a, IF t.s = <<>> THEN <<>> ELSE [i \in DOMAIN t.s |-> EncT(t.s[i])]>>
 EncP(x) == [doms |-> x.doms, elems |-> x.elems, coefs |-> x.coefs, csts |-> x.csts,
-            itgs |-> [j \in DOMAIN x.itgs |-> <<x.itgs[j].itype, x.itgs[j].sid, EncT(x.itgs[j].md), x.itgs[j].dom, EncT(x.itgs[j].g)>>]]
-EncR(r) == [j \in DOMAIN r |-> <<r[j].itype, r[j].sid, EncT(r[j].md), r[j].dom, EncT(r[j].g)>>]
+            itgs |-> [j \in DOMAIN x.itgs |-> <<x.itgs[j].itype, x.itgs[j].sid, EncT(x.itgs[j].md), x.itgs[j].dom, EncT(x.itgs[j].g), x.itgs[j].xm>>]]
+EncR(r) == [j \in DOMAIN r |-> <<r[j].itype, r[j].sid, EncT(r[j].md), r[j].dom, EncT(r[j].g), r[j].xm>>]
 Dump == DumpOn => PrintT(ToJson(<<b, lvl, kind, EncP(q), EncR(rep), EncR(srep)>>))
 =============================================================================
